@@ -5,7 +5,8 @@ from pyvc.values import SV, SSeq, SInt, mk_int, mk_bool, as_int_term
 from pyvc.core import ctx, OutOfSubset
 from pyvc import vcrt
 from . import exprs
-from .exprs import T, C, V, VL, MZ, tdiv, fresh_expr, as_tuple
+from .exprs import T, C, V, VL, tdiv, fresh_expr, as_tuple
+from .exprs import MZI as MZ       # C10's specification is plain (interpreted) integer arithmetic
 from .loki_expr_model import sym
 from .pmbl_model import pmbl
 
@@ -259,7 +260,8 @@ def spec_ceil_division():
                         ground=exprs.ground_for(MZ), decode=decode)
 
 
-lemma_proofs = exprs.lemma_proofs
+def lemma_proofs():
+    return exprs.lemma_proofs((MZ,))
 
 
 def specs(tier='quick'):
